@@ -189,7 +189,7 @@ def gStep (si : SetInfo) (st : AState) (t : Nat) : AState :=
   let n := si.toks.length
   if t == n - 2 then { mode := 1 } else if t == n - 1 then { mode := 2 } else
   match si.follow with
-  | some (x, _) => { st with pending := t == x && !st.pending && (si.masks.getD x 0) / st.mode % 2 == 1 }
+  | some (x, _) => { st with pending := t == x && (si.masks.getD x 0) / st.mode % 2 == 1 }
   | none => { st with pending := false }
 
 /-- reference run over the grammar automaton with the given lexer model: tokens `(tok, start, end)`,
@@ -269,8 +269,10 @@ def evalEvents (si : SetInfo) (valid : Array (List Nat)) (cps : String) (input :
       if ((candidates si.toks (fun _ => true) inp).any (fun c => !vs.contains c.1)) then a := { a with ctx := a.ctx + 1 }
       -- per-state valid set from the table ⊇ grammar-level valid set of the automaton state
       if !(gValid si st).all (fun i => vs.contains i) then bad := true
-      if tok == 100000 then (if !inp.isEmpty then bad := true)
-      else if scan != real then bad := true
+      if tok == 100000 then
+        if !inp.isEmpty then bad := true
+      else
+        if scan != real then bad := true
       if tok < 100000 then st := gStep si st tok
   if bad then a := { a with corrBad := a.corrBad + 1, firstCorr := if a.firstCorr == "" then cps else a.firstCorr }
   if !same runRef then
